@@ -174,13 +174,13 @@ int node_insert_branch(BPlusNode *node, PyObject *key, BPlusNode *right_child,
         
         /* Split at midpoint */
         int mid = node->capacity / 2;
+        /* Ownership of every separator moves with it: `key` arrives as an owned
+         * reference from the child split, the promoted key leaves as one. */
         *split_key = temp_keys[mid];
-        Py_INCREF(*split_key);
         
         /* Keep first half in current node */
         node->num_keys = mid;
         for (int i = 0; i < mid; i++) {
-            Py_INCREF(temp_keys[i]);
             node_set_key(node, i, temp_keys[i]);
         }
         for (int i = 0; i <= mid; i++) {
@@ -190,7 +190,6 @@ int node_insert_branch(BPlusNode *node, PyObject *key, BPlusNode *right_child,
         /* Move second half to new node */
         (*new_node)->num_keys = node->capacity - mid;
         for (int i = 0; i < (*new_node)->num_keys; i++) {
-            Py_INCREF(temp_keys[mid + 1 + i]);
             node_set_key(*new_node, i, temp_keys[mid + 1 + i]);
         }
         for (int i = 0; i <= (*new_node)->num_keys; i++) {
@@ -210,8 +209,7 @@ int node_insert_branch(BPlusNode *node, PyObject *key, BPlusNode *right_child,
         node_set_child(node, i + 1, node_get_child(node, i));
     }
     
-    /* Insert new key and child */
-    Py_INCREF(key);
+    /* Insert new key and child (takes over the caller's reference to `key`) */
     node_set_key(node, pos, key);
     node_set_child(node, pos + 1, right_child);
     node->num_keys++;
